@@ -470,7 +470,7 @@ public:
       });
     }
     if (cmp && d->kind == K_DIST && d->pristine()) {
-      std::string fam = d->distFamily + (d->distFree ? ":free-values" : "") + ((d->distAllow & 4) ? ":invariant-value-set" : "");
+      std::string fam = d->distFamily + ((d->distAllow & 4) ? ":invariant-value-set" : "") + (d->distFree ? ":free-values" : "");
       rt(g == 0 && r, "dist", "raised:" + fam, "readDiscreteDistribution raised on its own writer's output (stream precision " + std::to_string(d->distPrec) + "): " + printable(desc));
       rt(r->getName() == d->dist->getName(), "dist", "family:" + fam, "wrote " + d->dist->getName() + " read " + r->getName() + ": " + printable(desc));
       size_t n = d->dist->getNumberOfCategories();
